@@ -279,12 +279,95 @@ func checkC20(e *Engine, r *Report) {
 	} else {
 		r.Check("R9:request-from-shares", "R9 wiring", "estimateResourceRequirements calls SharesToMilliCPU once", e.Pos(est.Pos()), est, false, fmt.Sprintf("%d calls", len(cs)), true)
 	}
-	if cs := callsVia(decQ); len(cs) == 1 {
-		a := cs[0].Common().Args
-		r.Check("R9:limit-from-quota-period", "R9 wiring", "the CPU limit is QuotaToMilliCPU(cpu quota, cpu period) — in that order", e.InstrPos(cs[0]), est,
-			fromGetter(a[0], "GetQuota") && fromGetter(a[1], "GetPeriod") && !fromGetter(a[0], "GetPeriod") && !fromGetter(a[1], "GetQuota"), "", true)
+	if cs := callsVia(decQ); len(cs) >= 1 {
+		for _, c := range cs {
+			a := c.Common().Args
+			r.Check("R9:limit-from-quota-period", "R9 wiring", "QuotaToMilliCPU is applied to (cpu quota, cpu period) — in that order", e.InstrPos(c), est,
+				fromGetter(a[0], "GetQuota") && fromGetter(a[1], "GetPeriod") && !fromGetter(a[0], "GetPeriod") && !fromGetter(a[1], "GetQuota"), "", true)
+		}
 	} else {
-		r.Check("R9:limit-from-quota-period", "R9 wiring", "estimateResourceRequirements calls QuotaToMilliCPU once", e.Pos(est.Pos()), est, false, fmt.Sprintf("%d calls", len(cs)), true)
+		r.Check("R9:limit-from-quota-period", "R9 wiring", "estimateResourceRequirements calls QuotaToMilliCPU", e.Pos(est.Pos()), est, false, "0 calls", true)
+	}
+	// what is stored as the CPU request / limit
+	{
+		isCallVia := func(v ssa.Value, target *ssa.Function) bool {
+			for _, c := range callsVia(target) {
+				if v == ssa.Value(c) {
+					return true
+				}
+			}
+			return false
+		}
+		derives := func(v ssa.Value, pred func(ssa.Value) bool) bool {
+			okAll, any := true, false
+			var walk func(x ssa.Value, d int)
+			seen := map[ssa.Value]bool{}
+			walk = func(x ssa.Value, d int) {
+				if seen[x] || d > 10 {
+					return
+				}
+				seen[x] = true
+				if pred(x) {
+					any = true
+					return
+				}
+				switch y := x.(type) {
+				case *ssa.UnOp:
+					walk(y.X, d+1)
+				case *ssa.Phi:
+					for _, ed := range y.Edges {
+						walk(ed, d+1)
+					}
+				case *ssa.Call:
+					// resapi.NewMilliQuantity(value, format): the quantity of `value`
+					if f := y.Common().StaticCallee(); f != nil && (f.Name() == "NewMilliQuantity" || f.Name() == "NewQuantity") {
+						walk(y.Common().Args[0], d+1)
+						return
+					}
+					okAll = false
+				case *ssa.Convert:
+					walk(y.X, d+1)
+				default:
+					okAll = false
+				}
+			}
+			walk(v, 0)
+			return okAll && any
+		}
+		nReq, nLim := 0, 0
+		AllInstrsOf(est, func(in ssa.Instruction) {
+			mu, ok := in.(*ssa.MapUpdate)
+			if !ok {
+				return
+			}
+			f, _ := loadedField(mu.Map)
+			key, isK := constString(mu.Key)
+			if f == nil || !isK || key != "cpu" {
+				return
+			}
+			switch f.Name() {
+			case "Requests":
+				nReq++
+				r.Check("R9:stored-request-from-shares", "R9 wiring", "the CPU request recorded for a container is the value reconstructed from its cpu.shares (and nothing else)", e.InstrPos(in), est,
+					derives(mu.Value, func(x ssa.Value) bool { return isCallVia(x, dec) }), "", true)
+			case "Limits":
+				nLim++
+				r.Check("R9:stored-limit-from-quota-or-request", "R9 wiring", "the CPU limit recorded is the value reconstructed from quota/period, or (Guaranteed) the recorded request itself", e.InstrPos(in), est,
+					derives(mu.Value, func(x ssa.Value) bool {
+						if isCallVia(x, decQ) {
+							return true
+						}
+						if lk, ok := x.(*ssa.Lookup); ok {
+							g, _ := loadedField(lk.X)
+							k2, isK2 := constString(lk.Index)
+							return g != nil && g.Name() == "Requests" && isK2 && k2 == "cpu"
+						}
+						return false
+					}), "", true)
+			}
+		})
+		r.MinInstances("stores of the CPU request", nReq, 1)
+		r.MinInstances("stores of the CPU limit", nLim, 1)
 	}
 	if t := aliases["OomAdjToMemReq"]; t != nil {
 		if cs := callsVia(t); len(cs) == 1 {
